@@ -6,12 +6,12 @@
 /// Check for `assertion`: ""format class = class of the first date-like token of the first section""
 
 #[test]
-fn kani_concrete_playback_c10_q_grammar_2_2053045280485330220() {
+fn kani_concrete_playback_c10_q_grammar_2_10687118597026684639() {
     let concrete_vals: Vec<Vec<u8>> = vec![
-        // 7ul
-        vec![7, 0, 0, 0, 0, 0, 0, 0],
-        // 25ul
-        vec![25, 0, 0, 0, 0, 0, 0, 0],
+        // 35ul
+        vec![35, 0, 0, 0, 0, 0, 0, 0],
+        // 27ul
+        vec![27, 0, 0, 0, 0, 0, 0, 0],
     ];
     kani::concrete_playback_run(concrete_vals, c10_q_grammar_2);
 }
@@ -21,12 +21,12 @@ fn kani_concrete_playback_c10_q_grammar_2_2053045280485330220() {
 /// Check for `cover`: "end-elapsed"
 
 #[test]
-fn kani_concrete_playback_c10_q_grammar_2_8497260068657615864() {
+fn kani_concrete_playback_c10_q_grammar_2_2399675311439866275() {
     let concrete_vals: Vec<Vec<u8>> = vec![
+        // 48ul
+        vec![48, 0, 0, 0, 0, 0, 0, 0],
         // 31ul
         vec![31, 0, 0, 0, 0, 0, 0, 0],
-        // 23ul
-        vec![23, 0, 0, 0, 0, 0, 0, 0],
     ];
     kani::concrete_playback_run(concrete_vals, c10_q_grammar_2);
 }
@@ -36,12 +36,12 @@ fn kani_concrete_playback_c10_q_grammar_2_8497260068657615864() {
 /// Check for `cover`: "end-date"
 
 #[test]
-fn kani_concrete_playback_c10_q_grammar_2_7797078995501702307() {
+fn kani_concrete_playback_c10_q_grammar_2_17160686027840054614() {
     let concrete_vals: Vec<Vec<u8>> = vec![
-        // 15ul
-        vec![15, 0, 0, 0, 0, 0, 0, 0],
-        // 25ul
-        vec![25, 0, 0, 0, 0, 0, 0, 0],
+        // 39ul
+        vec![39, 0, 0, 0, 0, 0, 0, 0],
+        // 19ul
+        vec![19, 0, 0, 0, 0, 0, 0, 0],
     ];
     kani::concrete_playback_run(concrete_vals, c10_q_grammar_2);
 }
